@@ -605,4 +605,51 @@ func runC10(c *Ctx) {
 			}
 		}
 	}
+	// the key tag of RFC 4034 Appendix B computed here, not taken from the library: a key whose running sum carries in the
+	// last step (low half + high half ≥ 2^16: about one Ed25519 key in 7000) — a signature carrying the RFC tag verifies,
+	// one carrying the next tag does not
+	{
+		rfcTag := func(rd []byte) (uint16, bool) {
+			ac := uint32(0)
+			for i, b := range rd {
+				if i&1 == 1 {
+					ac += uint32(b)
+				} else {
+					ac += uint32(b) << 8
+				}
+			}
+			carry := (ac&0xFFFF)+(ac>>16) >= 0x10000
+			ac += (ac >> 16) & 0xFFFF
+			return uint16(ac & 0xFFFF), carry
+		}
+		found := 0
+		for try := 0; try < 400000 && found < 2; try++ {
+			pub, priv, _ := ed25519.GenerateKey(detRand{r})
+			rd := append([]byte{1, 1, 3, dns.ED25519}, pub...)
+			tag, carry := rfcTag(rd)
+			if !carry {
+				continue
+			}
+			found++
+			key := &dns.DNSKEY{Hdr: dns.RR_Header{Name: "example.org.", Rrtype: dns.TypeDNSKEY, Class: 1, Ttl: 3600}, Flags: 257, Protocol: 3, Algorithm: dns.ED25519, PublicKey: toB64(pub)}
+			set := []dns.RR{&dns.A{Hdr: dns.RR_Header{Name: "www.example.org.", Rrtype: dns.TypeA, Class: 1, Ttl: 60}, A: []byte{192, 0, 2, 44}}}
+			in := fmt.Sprintf("key=%s rfc-tag=%d", hx(rd), tag)
+			for _, d := range []uint16{0, 1} {
+				rs := &dns.RRSIG{Hdr: dns.RR_Header{Ttl: 60}, Algorithm: dns.ED25519, SignerName: "example.org.", KeyTag: tag + d, Inception: 1700000000, Expiration: 1900000000}
+				if err := rs.Sign(priv, set); err != nil {
+					c.Pred("keytag-carry", "sign-real:carry", in, false, err.Error(), "nil", true)
+					continue
+				}
+				verr := rs.Verify(key, set)
+				if d == 0 {
+					c.Pred("keytag-carry", "rfc-tag-accepted", in, verr == nil, fmt.Sprint(verr), "nil", true)
+				} else {
+					c.Pred("keytag-carry", "other-tag-rejected", in, verr != nil, "accepted", "rejected", true)
+				}
+			}
+		}
+		if found == 0 {
+			c.Res.Notes = append(c.Res.Notes, "keytag-carry: no key with a carry in the last step found in 400000 tries")
+		}
+	}
 }
